@@ -434,6 +434,31 @@ def run_check(prop_id, tier, seed, repo, replay=None):
             tot.infra = r["infra"]
         if r["failure"]:
             failures.append(r["failure"])
+    # optional second stage owned by the property module (rapid / native fuzz in the Go harness)
+    extra = None
+    if not replay and not failures and not tot.infra and hasattr(mod, "extra_stage"):
+        try:
+            extra, xf = mod.extra_stage(repo, bins, tier, seed)
+        except Exception:
+            extra, xf = None, {"infra": traceback.format_exc()}
+        if xf:
+            if "infra" in xf:
+                tot.infra = xf["infra"]
+            else:
+                # re-judge the case through the ordinary path (known-finding matching, confirmation)
+                a, b = ctx.Pipe(duplex=False)
+                p = ctx.Process(target=_worker, args=(prop_id, tier, seed, 0, 1, repo, b, xf["case"]))
+                p.start()
+                b.close()
+                r = a.recv() if a.poll(120) else None
+                p.join(10)
+                if r and r["failure"]:
+                    failures.append(r["failure"])
+                elif r and r["known"]:
+                    for kk, vv in r["known"].items():
+                        tot.known[kk] = tot.known.get(kk, 0) + vv
+                else:
+                    failures.append(xf)
     entries = findingsmod.entries_for(prop_id)
     for key in sorted(tot.known):
         e = next((x for x in entries if x["key"] == key), {})
@@ -489,6 +514,8 @@ def run_check(prop_id, tier, seed, repo, replay=None):
         "tree_hash": bins.hash,
         "budget_exhausted": tot.budget_exhausted,
     }
+    if extra is not None:
+        cov["second_stage"] = extra
     if infra:
         cov["infrastructure_problem"] = infra[-2000:]
     try:
